@@ -119,22 +119,19 @@ def namesDistinct : List String → Bool
   | n :: r => !r.contains n && namesDistinct r
 
 /-- is this block in the class? -/
-def blockTame (ext : Bool) (macros : List Macro) (active : List PTok) : Bool :=
+def blockTame (macros : List Macro) (active : List PTok) : Bool :=
   macros.all wfB && namesDistinct (macros.map (·.name)) &&
-    (if ext then (tameRun2 (16 * active.length + 256) (macros.map (⟨·, false⟩)) true active).isSome
-     else (tameRun (16 * active.length + 256) (macros.map (⟨·, false⟩)) active).isSome)
+    (tameRun (16 * active.length + 256) (macros.map (⟨·, false⟩)) active).isSome
 
 structure TState where
   st : State
   tame : Bool
-  /-- classify with the experimental extended class (`tameRun2`) -/
-  ext : Bool := false
 
 /-- `boundary`: the block ends where a file is included or an included file ends.  C has no block boundary there
 (inclusion is textual), so the class also requires that such a block does not end in the name of a function-like macro
 (an invocation that would span the boundary of a file). -/
 def tflush (ts : TState) (active : List PTok) (boundary : Bool := false) : Except Err TState :=
-  let ok := ts.tame && blockTame ts.ext ts.st.macros active
+  let ok := ts.tame && blockTame ts.st.macros active
   match flush ts.st active with
   | .error e => .error e
   | .ok st =>
@@ -143,7 +140,7 @@ def tflush (ts : TState) (active : List PTok) (boundary : Bool := false) : Excep
       (match lastTok produced with
        | some (.id g) => ts.st.macros.any (fun m => m.name == g && m.isFunction)
        | _ => false)
-    .ok ⟨st, ok && !spans, ts.ext⟩
+    .ok ⟨st, ok && !spans⟩
 
 def tstepLine (inc : String → TState → Except Err TState) (cur : String) :
     TState × List PTok → Line → Except Err (TState × List PTok)
@@ -154,14 +151,14 @@ def tstepLine (inc : String → TState → Except Err TState) (cur : String) :
     | .ok ts =>
       match doDefine ts.st.macros cmd with
       | .error e => .error e
-      | .ok ms => .ok (⟨{ ts.st with macros := ms }, ts.tame, ts.ext⟩, [])
+      | .ok ms => .ok (⟨{ ts.st with macros := ms }, ts.tame⟩, [])
   | (ts, active), .undef cmd =>
     match tflush ts active with
     | .error e => .error e
     | .ok ts =>
       match doUndef ts.st.macros cmd with
       | .error e => .error e
-      | .ok ms => .ok (⟨{ ts.st with macros := ms }, ts.tame, ts.ext⟩, [])
+      | .ok ms => .ok (⟨{ ts.st with macros := ms }, ts.tame⟩, [])
   | (ts, active), .pragmaWarning =>
     match tflush ts active with
     | .error e => .error e
@@ -169,7 +166,7 @@ def tstepLine (inc : String → TState → Except Err TState) (cur : String) :
   | (ts, active), .pragmaOnce =>
     match tflush ts active with
     | .error e => .error e
-    | .ok ts => .ok (⟨{ ts.st with once := cur :: ts.st.once }, ts.tame, ts.ext⟩, [])
+    | .ok ts => .ok (⟨{ ts.st with once := cur :: ts.st.once }, ts.tame⟩, [])
   | (ts, active), .incl name =>
     match tflush ts active true with
     | .error e => .error e
@@ -202,14 +199,14 @@ def tincludeFile (h : Handler) : Nat → String → TState → Except Err TState
       else trunFile (tincludeFile h fuel) name ts lines
 
 /-- `tame`: every block is in the class and the model's run succeeds; `not-tame` otherwise -/
-def classify (api : List ApiDefine) (files : List (String × List Line)) (ext : Bool := false) : String :=
+def classify (api : List ApiDefine) (files : List (String × List Line)) : String :=
   match files with
   | [] => "bad-request"
   | (entry, lines) :: _ =>
     match initialMacros [] api with
     | .error _ => "not-tame"
     | .ok ms =>
-      match trunFile (tincludeFile (handlerOf files) RsslVerif.Gen.MacroTables.maxIncludeDepth) entry ⟨{ macros := ms, out := [], once := [] }, true, ext⟩ lines with
+      match trunFile (tincludeFile (handlerOf files) RsslVerif.Gen.MacroTables.maxIncludeDepth) entry ⟨{ macros := ms, out := [], once := [] }, true⟩ lines with
       | .error _ => "not-tame"
       | .ok ts => if ts.tame then "tame" else "not-tame"
 
@@ -222,10 +219,6 @@ def handle (op : String) (args : List String) : String :=
   | "C12.tame", api :: files =>
     match parseApi api, sequenceOpt (files.map parseFile) with
     | some api, some files => classify api files
-    | _, _ => "bad-request"
-  | "C12.tame2", api :: files =>
-    match parseApi api, sequenceOpt (files.map parseFile) with
-    | some api, some files => classify api files true
     | _, _ => "bad-request"
   | "C12.limit", _ => "unsupported (resource test on the real code only)"
   | _, _ => "unsupported-op"
